@@ -70,36 +70,47 @@ def read (text name : String) : E Circuit :=
   | none => .error (.other "regex")
   | some stmts => build name stmts
 
-/-- the statements `circuit_to_bench` emits, in emission order (constants as XOR/XNOR of an input with itself) -/
-def toLines (c : Circuit) (ord : Ord) : E (List String) :=
+/-- the statements `circuit_to_bench` emits, in emission order: gate lines only (constants are built from the first
+    input and its complement, created lazily at the first constant) -/
+def toGateStmts (c : Circuit) (ord : Ord) : E (List Stmt) :=
   if !c.bbs.isEmpty then .error .valueError else
   if c.nodes.any (fun p => p.2.ty.isNone) then .error .keyError else
   match ord c.inputs with
   | [] => .error .keyError        -- `c.inputs().pop()` on an empty set
   | constInp :: _ =>
-    -- `const_inv` is created lazily at the first constant: thread it through the loop
-    (ord (c.nodeNames.filter (fun n => !c.inputs.contains n))).foldlM (fun (st : List String × Option Name) n =>
+    (ord (c.nodeNames.filter (fun n => !c.inputs.contains n))).foldlM (fun (st : List Stmt × Option Name) n =>
       match c.ty? n with
       | none => .error .keyError
       | some t =>
-        if T.primitive.contains t then
-          .ok (st.1 ++ [n ++ " = " ++ upper t ++ "(" ++ ", ".intercalate (ord (c.fanin n)) ++ ")"], st.2)
+        if T.primitive.contains t then .ok (st.1 ++ [Stmt.gate n t (ord (c.fanin n))], st.2)
         else if t == "0" || t == "1" then
           (match st.2 with
-           | some inv => .ok (([] : List String), inv)
+           | some inv => .ok (([] : List Stmt), inv)
            | none => match c.uid (constInp ++ "_inv") with
-             | some inv => .ok (["" ++ inv ++ " = NOT(" ++ constInp ++ ")"], inv)
+             | some inv => .ok ([Stmt.gate inv "not" [constInp]], inv)
              | none => .error .fuel) >>= fun r =>
-          .ok (st.1 ++ r.1 ++ [n ++ " = " ++ (if t == "0" then "AND" else "OR") ++ "(" ++ constInp ++ ", " ++ r.2 ++ ")"], some r.2)
+          .ok (st.1 ++ r.1 ++ [Stmt.gate n (if t == "0" then "and" else "or") [constInp, r.2]], some r.2)
         else .error .valueError) ([], none) >>= fun st => pure st.1
+
+/-- all statements of the written netlist, in the order the *reader* will process them (its four regex passes) -/
+def toStmts (c : Circuit) (ord : Ord) : E (List Stmt) :=
+  toGateStmts c ord >>= fun gs =>
+  pure ((ord c.inputs).map Stmt.input ++ gs ++ (ord c.outputs).map Stmt.output)
+
+def renderStmt : Stmt → String
+  | .input n => "INPUT(" ++ n ++ ")"
+  | .output n => "OUTPUT(" ++ n ++ ")"
+  | .gate n t ins => n ++ " = " ++ upper t ++ "(" ++ ", ".intercalate ins ++ ")"
+  | .dffNet _ => ""
+  | .dff q d => q ++ " = DFF(" ++ d ++ ")"
 
 /-- `io.circuit_to_bench(c)` -/
 def write (c : Circuit) (ord : Ord) : E String :=
-  toLines c ord >>= fun insts =>
+  toGateStmts c ord >>= fun gs =>
   pure ("# " ++ c.name ++ "\n" ++
-    String.join ((ord c.inputs).map (fun i => "INPUT(" ++ i ++ ")\n")) ++ "\n" ++
-    String.join ((ord c.outputs).map (fun o => "OUTPUT(" ++ o ++ ")\n")) ++ "\n" ++
-    "\n".intercalate insts)
+    String.join ((ord c.inputs).map (fun i => renderStmt (.input i) ++ "\n")) ++ "\n" ++
+    String.join ((ord c.outputs).map (fun o => renderStmt (.output o) ++ "\n")) ++ "\n" ++
+    "\n".intercalate (gs.map renderStmt))
 
 end Bench
 end CG
